@@ -41,6 +41,11 @@ def type_infer(t, *, forbid_internal=True):
     incr_ctxt = dict()
     incr_sctxt = dict()
 
+    # Types given explicitly for variables in the input, and types used
+    # for their occurrences without a given type.
+    given_ctxt, used_ctxt = dict(), dict()
+    given_sctxt, used_sctxt = dict(), dict()
+
     # Create and return a new type variable.
     def new_type():
         nonlocal num_internal
@@ -63,11 +68,19 @@ def type_infer(t, *, forbid_internal=True):
                     new_reach.update(reach[int(T.name[2:])])
 
         # Update uf and reach, check for cycles in reach.
+        changed = []
         for k, v in uf.items():
             if uf[k] == T1:
                 if k in new_reach:
                     raise TypeInferenceException("Infinite loop")
                 uf[k] = T2
+                reach[k].update(new_reach)
+                changed.append(k)
+
+        # Keep reach transitively closed: whatever reaches one of the
+        # variables just assigned now also reaches new_reach.
+        for k in reach:
+            if any(k2 in reach[k] for k2 in changed):
                 reach[k].update(new_reach)
 
     def unify(T1, T2):
@@ -98,11 +111,27 @@ def type_infer(t, *, forbid_internal=True):
         else:
             raise TypeInferenceException("Unable to unify " + str(T1) + " with " + str(T2))
 
+    def check_var(t, is_given, given, used):
+        """Occurrences of a variable without a given type agree with the
+        type given for it elsewhere in the term."""
+        try:
+            if is_given:
+                if t.name in used:
+                    unify(used[t.name], t.T)
+                given.setdefault(t.name, t.T)
+            else:
+                if t.name in given:
+                    unify(t.T, given[t.name])
+                used[t.name] = t.T
+        except TypeInferenceException as e:
+            raise TypeInferenceException(e.err + "\nWhen infering type of " + t.name)
+
     def infer(t, bd_vars):
         """Infer the type of T."""
         # Var case: if type is not known, try to obtain it from context,
         # otherwise, make a new type.
         if t.is_svar():
+            is_given = t.T is not None
             if t.T is None:
                 if t.name in context.ctxt.svars:
                     t.T = context.ctxt.svars[t.name]
@@ -111,9 +140,11 @@ def type_infer(t, *, forbid_internal=True):
                 else:
                     t.T = new_type()
                     incr_sctxt[t.name] = t.T
+            check_var(t, is_given, given_sctxt, used_sctxt)
             return t.T
 
         elif t.is_var():
+            is_given = t.T is not None
             if t.T is None:
                 if t.name in context.ctxt.vars:
                     t.T = context.ctxt.vars[t.name]
@@ -122,6 +153,7 @@ def type_infer(t, *, forbid_internal=True):
                 else:
                     t.T = new_type()
                     incr_ctxt[t.name] = t.T
+            check_var(t, is_given, given_ctxt, used_ctxt)
             return t.T
 
         # Const case: if type is not known, obtain it from theory,
